@@ -1668,6 +1668,22 @@ Section Flat.
       destruct (add_newline (page_result (body_subst_args ht (t_body t)))); reflexivity.
     - cbn. reflexivity.
   Qed.
+
+  (** frame:preprocess(t): text and flat calls expanded inside a Lua callback - under a longer expansion path on which
+      none of the called templates is being expanded - give what they give on the page (C08). *)
+  Theorem preprocess_anywhere stk page :
+    (length stk < 100)%nat -> forallb flat_item page = true -> fresh_items stk page = true ->
+    o_tfn opts = [] -> o_pfn opts = [] ->
+    exists F, forall fuel, (F <= fuel)%nat ->
+      expand_recurse fuel stk true page = expand_recurse fuel [FTitle] true page /\
+      expand_recurse fuel stk true page = Some (page_result page).
+  Proof.
+    intros Hd Hp Hf Htfn Hpfn. destruct (expand_items_at page Hp Htfn Hpfn) as [F HF].
+    exists F. intros fuel Hfu.
+    assert (Hfresh0 : fresh_items [FTitle] page = true).
+    { unfold fresh_items. apply forallb_forall. intros x _. destruct x as [c|[|n args]| | | |]; reflexivity. }
+    rewrite (HF stk fuel Hd Hf Hfu). rewrite (HF [FTitle] fuel ltac:(cbn; lia) Hfresh0 Hfu). split; reflexivity.
+  Qed.
 End Flat.
 
 (** The deviation the code is known to have (c04:trailing-newline-dropped) is exactly the gap between the two
